@@ -5,7 +5,7 @@ cd "$(dirname "$0")"
 export CARGO_NET_OFFLINE=true
 mkdir -p .cache evidence
 cp /repo/Cargo.lock replay/Cargo.lock
-(cd replay && CARGO_TARGET_DIR=../.cache/replay-target cargo build --offline --quiet)
+(cd replay && RUSTFLAGS="--cfg rigetti_quil_rs_verif" CARGO_TARGET_DIR=../.cache/replay-target cargo build --offline --quiet)
 python3-vt - <<'PY'
 import sys
 sys.path.insert(0, "mirsym")
